@@ -7,6 +7,7 @@ package main
 import (
 	"fmt"
 	"go/ast"
+	"go/token"
 	"go/types"
 	"strings"
 )
@@ -130,7 +131,8 @@ func (m *lenMachine) call(in *Interp, st *State, call *ast.CallExpr, name string
 	}
 	// a straight-line new helper is inlined by the interpreter: its own statements say what it does to the stack
 	if callee := m.c.Callee(call); callee != nil && in.Inline != nil && in.Inline(callee) {
-		if fd := m.c.DeclOf(callee); fd != nil && fd.Body != nil && straightLine(fd.Body) {
+		if fd := m.c.DeclOf(callee); fd != nil && fd.Body != nil && (straightLine(fd.Body) || in.forkCall == call && loopFree(fd.Body)) {
+			// (a branching helper is inlined only where the statement forks on its paths)
 			return nil
 		}
 	}
@@ -199,6 +201,23 @@ func straightLine(b *ast.BlockStmt) bool {
 		switch n.(type) {
 		case *ast.IfStmt, *ast.ForStmt, *ast.RangeStmt, *ast.SwitchStmt, *ast.TypeSwitchStmt, *ast.SelectStmt, *ast.FuncLit, *ast.DeferStmt, *ast.GoStmt, *ast.BranchStmt, *ast.LabeledStmt:
 			ok = false
+		}
+		return ok
+	})
+	return ok
+}
+
+// loopFree: branching allowed, but no loops, closures, defers or gotos in the body.
+func loopFree(b *ast.BlockStmt) bool {
+	ok := true
+	ast.Inspect(b, func(n ast.Node) bool {
+		switch x := n.(type) {
+		case *ast.ForStmt, *ast.RangeStmt, *ast.SelectStmt, *ast.FuncLit, *ast.DeferStmt, *ast.GoStmt, *ast.LabeledStmt:
+			ok = false
+		case *ast.BranchStmt:
+			if x.Tok == token.GOTO {
+				ok = false
+			}
 		}
 		return ok
 	})
